@@ -213,11 +213,11 @@ def unP (w : EW) (env : Env) (cf : Conf) : PTy → Obj → Obj
       else mkColl (unTarget cf.fmt k) (xs.map (unP w env cf t))
   | .tupleHet ts, .coll .tuple xs => .coll .tuple (unT w env cf ts xs)
   | .map k kt vt, .dict kvs =>
-      if k == .counter then
-        -- `mapping_unstructure_factory`: "Probably a Counter": the key type is taken to be the tuple `(K,)`, whose
-        -- handler is the fallback identity; values are unstructured by run-time class (ints)
-        .dict (mkDict kvs)
-      else if cf.fmt == .msgspec && hk cf kt != .custom && hk cf vt != .custom then toB w env (.dict kvs)
+      -- `mapping_unstructure_factory`, `Counter[K]` ("Probably a Counter"): the key type is `K` (`args[0]`; F42, repaired)
+      -- and the value type is taken to be `Any`, whose handler (unstructure by run-time class) is never a
+      -- pass-through: a Counter always goes through the generated mapping hook, its keys through `K`'s handler; its
+      -- counts are ints (`vt = int` is the only Counter form the wire builds and `sup` admits), left as they are
+      if cf.fmt == .msgspec && k != .counter && hk cf kt != .custom && hk cf vt != .custom then toB w env (.dict kvs)
       else .dict (mkDict (kvs.map (fun kv => (unP w env cf kt kv.1, unP w env cf vt kv.2))))
   | .opt _, .none => .none
   | .opt t, x => unP w env cf t x
@@ -576,18 +576,9 @@ def plainStrEnum (w : EW) : PTy → Bool
   | .enum e => w.kind e == .plain && !(w.members e).all isIntObj
   | _ => false
 
-/-- `Counter[K]`: the keys are left as they are by every converter (finding F35), so only key types whose raw
-values the format's encoder turns into what `K`'s structure hook reads back are supported -/
-def counterKey (w : EW) (cf : Conf) : PTy → Bool
-  | .int | .str => true
-  | .float => cf.uhook.isNone
-  | .bool => cf.fmt == .yaml
-  | .bytes | .datetime | .date => cf.fmt != .json
-  | .enum e => (match cf.fmt with
-      | .json => w.kind e != .plain
-      | .yaml => false
-      | .msgspec => !plainStrEnum w (.enum e))
-  | .lit _ => true
+/-- the count type of a `Counter` -/
+def isIntTy : PTy → Bool
+  | .int => true
   | _ => false
 
 mutual
@@ -625,8 +616,9 @@ def sup (w : EW) (cf : Conf) : PTy → Bool
   | .tupleHet ts => supT w cf ts
   | .map k kt vt =>
       keyTy w cf.fmt kt && sup w cf kt && sup w cf vt
-      && (if k == .counter then (match vt with | .int => true | _ => false) && counterKey w cf kt      -- finding F35
-          else !(cf.fmt == .msgspec && plainStrEnum w kt && hk cf vt == .custom))                        -- finding F20
+      && ((k != .counter || isIntTy vt)
+          -- finding F20 (a Counter's value handler is that of `Any`: never a pass-through)
+          && !(cf.fmt == .msgspec && plainStrEnum w kt && (k == .counter || hk cf vt == .custom)))
   | .opt t => sup w cf t && (match t with | .opt _ | .punion _ => false | _ => true)
   | .cls _ _ fs => supF w cf fs && nodupPy (namesOf fs)
   | .td fs => supTD w cf fs && nodupPy (namesOf fs) && (cf.fmt != .msgspec || rtSafeTD w fs)
